@@ -15,8 +15,10 @@ echo "|---|---|---|"
 miss=0
 for d in seeded/C*/; do
   sid=$(basename $d); p=${sid%%-*}
+  if grep -q '"neutralised"' $d/meta.json; then echo "| $sid | - | neutralised by a later fix: commit (see meta.json) |" >> $out; echo "$sid -> neutralised"; continue; fi
   res=$(TIER=$tier tools/try_seed.sh /verif/$d/patch.diff $p 2>&1)
   rc=$(echo "$res" | grep -o "exit [0-9]*" | tail -1 | cut -d' ' -f2)
+  echo "$res" | grep -q "patch does not apply" && rc="patch-does-not-apply"
   line=$(echo "$res" | grep -E "^$p $tier:" | tail -1)
   echo "| $sid | $rc | ${line} |" >> $out
   echo "$sid -> exit $rc"
